@@ -557,6 +557,19 @@ func f4(w *World, r *Report) {
 				rc := w.Canon(rcv)
 				// the account is the one at the header's proposer address (found or created), in the consensus overlay
 				okAcct := strings.Contains(rc, ".GetProposerAddress(), true)") && strings.HasPrefix(rc, "phi(recv.findAccount(") && strings.Contains(rc, "|types.NewAccount(") && strings.Count(rc, "GetProposerAddress()") == 2
+				if !okAcct {
+					// found-or-created by a helper that is given the proposer address
+					hasFind, hasNew := false, false
+					for _, c := range w.mayCanons(rcv, 3) {
+						if strings.HasPrefix(c, "recv.findAccount(") && strings.HasSuffix(c, ".GetProposerAddress(), true)") {
+							hasFind = true
+						}
+						if strings.HasPrefix(c, "types.NewAccount(") && strings.HasSuffix(c, ".GetProposerAddress())") {
+							hasNew = true
+						}
+					}
+					okAcct = hasFind && hasNew
+				}
 				tr, isC := constBool(ma[1])
 				return okAcct && len(a) == 1 && w.Canon(a[0]) == "p0.SumFee()" && sameValue(ma[0], rcv) && isC && tr && instrDominates(add, mark)
 			})
